@@ -1,0 +1,21 @@
+//go:build verif
+
+package executorcmd
+
+import (
+	"github.com/AliceO2Group/Control/common/controlmode"
+	"github.com/AliceO2Group/Control/executor/executorcmd/transitioner"
+	pb "github.com/AliceO2Group/Control/executor/protos"
+	"github.com/sirupsen/logrus"
+)
+
+// NewClientForVerif builds an RpcClient exactly like NewClient does after a successful dial,
+// on top of an injected OccClient instead of a gRPC connection.
+func NewClientForVerif(occClient pb.OccClient, controlMode controlmode.ControlMode, log *logrus.Entry) *RpcClient {
+	client := &RpcClient{
+		OccClient: occClient,
+	}
+	client.Transitioner = transitioner.NewTransitioner(controlMode, client.doTransition)
+	client.Log = log
+	return client
+}
